@@ -18,6 +18,17 @@ type specEnv struct {
 	lp      *loopCtx
 	pos     token.Pos // position used to resolve local identifiers (NoPos: package scope only)
 	depth   int
+	pol     int // +1: the formula is a goal, -1: an assumption, 0: unknown (typing facts under binders are dropped)
+}
+
+// goal / assumption evaluate a clause with the given polarity.
+func (e *specEnv) goal(ex SExpr) *Term       { e.pol = 1; return e.evalBool(ex) }
+func (e *specEnv) assumption(ex SExpr) *Term { e.pol = -1; return e.evalBool(ex) }
+
+func (e *specEnv) withPol(p int) *specEnv {
+	n := *e
+	n.pol = p
+	return &n
 }
 
 func (x *fnv) newSpecEnv(s, old *State, pkgPath string) *specEnv {
@@ -103,7 +114,11 @@ func (e *specEnv) ev(ex SExpr) Value {
 	case SIdent:
 		return e.ident(ex.Name)
 	case SUn:
-		v := e.ev(ex.X)
+		sub := e
+		if ex.Op == "!" {
+			sub = e.withPol(-e.pol)
+		}
+		v := sub.ev(ex.X)
 		switch ex.Op {
 		case "!":
 			return Value{T: boolT, Term: c.Not(v.Term)}
@@ -124,9 +139,26 @@ func (e *specEnv) ev(ex SExpr) Value {
 		case "||":
 			return Value{T: boolT, Term: c.Or(e.evalBool(ex.L), e.evalBool(ex.R))}
 		case "==>":
-			return Value{T: boolT, Term: c.Implies(e.evalBool(ex.L), e.evalBool(ex.R))}
+			l := e.withPol(-e.pol).evalBool(ex.L)
+			if e.pol < 0 && e.s.binderFacts != nil {
+				// assumption: typing facts of the consequent hold whenever the antecedent does
+				var facts []*Term
+				view := *e.s
+				view.sink = sinkOf(e.s)
+				view.binderFacts = &facts
+				n := *e
+				n.s = &view
+				r := n.evalBool(ex.R)
+				return Value{T: boolT, Term: c.Implies(l, c.And(c.And(facts...), r))}
+			}
+			return Value{T: boolT, Term: c.Implies(l, e.evalBool(ex.R))}
 		case "<==>":
-			return Value{T: boolT, Term: c.Iff(e.evalBool(ex.L), e.evalBool(ex.R))}
+			z := e.withPol(0)
+			return Value{T: boolT, Term: c.Iff(z.evalBool(ex.L), z.evalBool(ex.R))}
+		case "==", "!=":
+			z := e.withPol(0)
+			l, r := z.ev(ex.L), z.ev(ex.R)
+			return x.binop(e.s, ex.Op, l, r, boolT, token.NoPos)
 		}
 		l, r := e.ev(ex.L), e.ev(ex.R)
 		var rt types.Type
@@ -141,7 +173,7 @@ func (e *specEnv) ev(ex SExpr) Value {
 		}
 		return x.binop(e.s, ex.Op, l, r, rt, token.NoPos)
 	case SCond:
-		cnd := e.evalBool(ex.C)
+		cnd := e.withPol(0).evalBool(ex.C)
 		a, b := e.ev(ex.A), e.ev(ex.B)
 		if isUntypedNil(a.T) {
 			a = x.h.zeroValue(b.T)
@@ -203,7 +235,34 @@ func (e *specEnv) ev(ex SExpr) Value {
 				}
 			}
 		}
+		// typing facts about terms mentioning the bound variables become hypotheses of the quantifier
+		var facts []*Term
+		view := *n.s
+		view.sink = sinkOf(n.s)
+		view.binderFacts = &facts
+		n.s = &view
 		body := n.evalBool(ex.Body)
+		var mine, outer []*Term
+		for _, f := range facts {
+			uses := false
+			for _, b := range bound {
+				if termUses(f, b) {
+					uses = true
+				}
+			}
+			if uses {
+				mine = append(mine, f)
+			} else {
+				outer = append(outer, f)
+			}
+		}
+		if len(outer) > 0 && e.s.binderFacts != nil && e.pol > 0 {
+			*e.s.binderFacts = append(*e.s.binderFacts, outer...)
+		}
+		if e.pol > 0 && ex.Forall {
+			// goal: the facts are hypotheses
+			guards = append(guards, mine...)
+		}
 		if ex.Forall {
 			return Value{T: boolT, Term: c.Forall(bound, c.Implies(c.And(guards...), body))}
 		}
@@ -343,7 +402,7 @@ func (e *specEnv) tpkgFor(t types.Type) *types.Package {
 
 func (e *specEnv) oldEnv() *specEnv {
 	n := e.sub()
-	view := &State{vars: e.old.vars, mem: e.old.mem, allocTop: e.old.allocTop, ghost: e.old.ghost, typed: e.s.typed, sink: sinkOf(e.s)}
+	view := &State{vars: e.old.vars, mem: e.old.mem, allocTop: e.old.allocTop, ghost: e.old.ghost, typed: e.s.typed, sink: sinkOf(e.s), binderFacts: e.s.binderFacts}
 	n.s = view
 	// locals: parameters keep their entry values (bound explicitly by the caller); other locals are
 	// read from the entry state when present
@@ -379,7 +438,7 @@ func (e *specEnv) call(ex SCall) Value {
 			e.fail("pre() is only available in loop invariants")
 		}
 		n := e.sub()
-		n.s = &State{vars: e.lp.pre.vars, mem: e.lp.pre.mem, allocTop: e.lp.pre.allocTop, ghost: e.lp.pre.ghost, typed: e.s.typed, sink: sinkOf(e.s)}
+		n.s = &State{vars: e.lp.pre.vars, mem: e.lp.pre.mem, allocTop: e.lp.pre.allocTop, ghost: e.lp.pre.ghost, typed: e.s.typed, sink: sinkOf(e.s), binderFacts: e.s.binderFacts}
 		return n.ev(ex.Args[0])
 	case "len", "card":
 		v := arg(0)
@@ -671,4 +730,16 @@ func (e *specEnv) evalModTargets(ex SExpr) []modTarget {
 	}
 	e.fail("unsupported modifies target")
 	return nil
+}
+
+func termUses(t, v *Term) bool {
+	if t == v {
+		return true
+	}
+	for _, a := range t.Args {
+		if termUses(a, v) {
+			return true
+		}
+	}
+	return false
 }
